@@ -83,8 +83,8 @@ CLAIMED = {
    ref='§5 C18', technique='Lean 4 proof (invariant + abstraction by induction over histories) + lock-step differential histories',
    note=TB + ' The encoders applied to the resulting tree are the models tied by C02/C05/C06. Known finding: extracting a node between two text siblings leaves them adjacent (not re-merged). One defect fixed (extract_node on a detached node).'),
  'C16': dict(
-   text='Theorems over an allocation-ledger model (free monad over malloc / realloc / free / dereference with a failure schedule; block ids never reused, so stale pointers, double frees and leaks are visible): for EVERY failure schedule (single failures and pairs are instances) the modelled functions - buffers, lists, names, attributes, tree nodes, parse_attribute / parse_element with the attribute table, encoder create / destroy / init_output, the string-table functions, fill_header, build_result, encoder_encode_tree - never fault, release everything they allocated, and report the failure; kernel-checked witnesses show the former code failing the clause. Partial: whole-conversion soundness (OomResultSound) is proved for the encoder half without string table; Expat call-backs, tree building, the XML printer and typed decoders are covered by exhaustive enumeration of k only (a test, labelled so).',
-   ref='§5 C16', technique='Lean 4 proof over an allocation-ledger monad + exhaustive single-failure enumeration (pairs in thorough) on the real code with an interposed allocator under ASan/LSan',
+   text='Theorems over an allocation-ledger model (free monad over malloc / realloc / free / dereference with a failure schedule; block ids never reused, so stale pointers, double frees and leaks are visible): for EVERY failure schedule (single failures and pairs are instances) the modelled functions - buffers, lists, names, attributes, tree nodes, parse_attribute / parse_element with the attribute table, the tree-building call-backs over arbitrary event lists (tree_from_wbxml_events_clean), encoder create / destroy / init_output, the whole string-table chain (collect_strings, split_words, collect_words, check_references, strtbl_initialize_clean with the explicit set of request sites whose failure is benign by design), fill_header, build_result, encoder_encode_tree with and without string table, tree_to_wbxml_no_leak - never fault, release everything they allocated, and report every non-benign failure; kernel-checked witnesses show the former code failing the clause. oom_result_sound_partial: whole-conversion soundness is proved for the encoder half and the tree-building half separately; the WBXML parser main loop, Expat call-backs, the XML printer and typed decoders are covered by exhaustive enumeration of k only (a test, labelled so).',
+   ref='§5 C16, §0', technique='Lean 4 proof over an allocation-ledger monad + exhaustive single-failure enumeration (pairs in thorough) on the real code with an interposed allocator under ASan/LSan',
    note=TB + ' Allocation failure is injected by replacing wbxml_mem.c at link time (no source hook); Expat allocations are outside the property. Known finding: check_public_id() reports an out-of-memory while reading a textual public id of an embedded document as unknown public id. 20 defects fixed.'),
  'C14': dict(
    text='Theorem schedule_independence for an abstract machine with read-only shared state and per-thread local state (any number of threads, any programs, any two complete interleavings: every thread sees exactly its sequential outputs), instantiated for the library through structural premises proved by kernel evaluation over the symbol table regenerated from the current build: no writable global/static object or section, no external symbol that POSIX allows to be non-reentrant or that mutates process state. Partial: a C-level data race is not expressible in the model; ThreadSanitizer runs of 2-16 threads compared with sequential runs are validation and counter-example search, not proof.',
